@@ -4,7 +4,7 @@ X3 (record and fail)."""
 import ast
 
 from sa.core import AnalysisError, ClassInfo, NotFoldable, norm_src, unparse
-from sa.guards import FuncGuards, callee_name, terminates
+from sa.guards import FuncGuards, callee_name, terminates, textually_before
 from sa.report import Finding, RuleResult
 
 EVAL_FN = "expressions.base.evaluate"
@@ -472,7 +472,30 @@ def _errors_consumed(prog, f, name, after):
                 return True, "consumed by 'if %s:'" % n.test.id
             return False, ("'if %s:' does not log" % n.test.id) if not logs else (
                 "'if %s:' does not request failed" % n.test.id)
-    return False, "no 'if <errors>:' block"
+    # guard-clause form:  if not errors: return  ...  log_errors(errors); request failed
+    fg = FuncGuards(prog, f)
+
+    def under_errors(node):
+        return any(a[0] == "truthy" and a[1] in derived for a in fg.atoms(node))
+    logs = [c for c in _calls(f.node.body) if callee_name(c) in ("log_errors", "log_error")
+            and under_errors(c) and textually_before(after, c)]
+    if not logs:
+        return False, "no 'if <errors>:' block and no logging under a guard on the error list"
+    base_atoms = set(fg.atoms(logs[0]))
+    for c in _calls(f.node.body):
+        if callee_name(c) == "request_workflow_status" and c.args and under_errors(c) and \
+                textually_before(after, c):
+            try:
+                if prog.fold(c.args[0], f.module) != "failed":
+                    continue
+            except NotFoldable:
+                continue
+            extra = [a for a in fg.atoms(c) if a not in base_atoms]
+            extra = [a for a in extra if not (
+                a[0] == "notin" and isinstance(a[2], frozenset) and a[2] <= CANCELISH)]
+            if not extra:
+                return True, "consumed under the guard on %s" % sorted(derived)[0]
+    return False, "errors are logged but the workflow is not failed under the same condition"
 
 
 # ====================================================================== X1
